@@ -615,7 +615,7 @@ fn deep_family(ctx: &Ctx) {
 }
 
 pub fn run(ctx: &Ctx) {
-    ctx.set_rule("structured terminating programs (marker blocks = write one character with INT 21h/AH=2, forward jumps, counter-guarded backward jumps via LOOP and SUB/JNZ, conditional skips after CMP, procedures with explicit/early/implied ret calling earlier procedures, labels before/after instructions, before a procedure, at end of file, several in a row, 'start' first / after other code / as the last thing in the file): (1) all main bodies of <= 4 tokens over a 13-symbol alphabet x 6 structural variants enumerated exhaustively; (2) proptest-generated larger programs; L2: real Preprocessor + Interpreter under a transcribed driver loop, executed-instruction index trace, stop reason, marker output, final registers and memory compared with a reference interpreter over the AST; L3: the CLI's stdout compared with the reference marker trace. Non-trivial = taken backward jump, call depth >= 2, label adjacent to procedure/print/end of file, or a procedure called twice; distinct by source text.");
+    ctx.set_rule("structured terminating programs (marker blocks = write one character with INT 21h/AH=2, forward jumps, counter-guarded backward jumps via LOOP and SUB/JNZ, conditional skips after CMP, procedures with explicit/early/implied ret calling earlier procedures, labels before/after instructions, before a procedure, at end of file, several in a row, 'start' first / after other code / as the last thing in the file): (1) all main bodies of <= 4 tokens over a 13-symbol alphabet x 6 structural variants enumerated exhaustively; (2) proptest-generated larger programs; L2: real Preprocessor + Interpreter under a transcribed driver loop, executed-instruction index trace, stop reason, marker output, final registers and memory compared with a reference interpreter over the AST; L3: the CLI's stdout compared with the reference marker trace.; one call in three between PUSH and POP, procedure bodies that pop what the caller pushed or leave something behind (return with SP above / below its value at the call), loops counted by a byte in memory Non-trivial = taken backward jump, call depth >= 2, label adjacent to procedure/print/end of file, or a procedure called twice; distinct by source text.");
     ctx.assume("a ret with no active call (label before a procedure, falling into a definition) stops the run with a diagnostic; only the trace up to that point is compared");
     ctx.set_exhaustive(false);
     // (1) exhaustive small scopes
